@@ -83,6 +83,8 @@ pub struct World {
 	pub last_built: Option<core::core::BlockHeader>,
 	/// number of values seen that are not whole units
 	pub unrep: std::cell::Cell<u64>,
+	/// key the next block's coinbase is (re-)requested under (a candidate of an earlier request)
+	pub cb_key: Option<String>,
 }
 
 pub fn key_str(id: &Identifier, _mmr: &Option<u64>) -> String {
@@ -208,6 +210,7 @@ impl World {
 			nslates: 0,
 			last_built: None,
 			unrep: std::cell::Cell::new(0),
+			cb_key: None,
 		}
 	}
 
@@ -691,6 +694,8 @@ impl World {
 		let include = &included[..];
 		let fees: u64 = txs.iter().map(|t| t.fee()).sum();
 		let height = prev.height + 1;
+		// the coinbase is re-requested under the key of an earlier candidate
+		let cbk = self.cb_key.as_ref().and_then(|k| parse_key(k));
 		let (cbname, out, kern) = match to {
 			Some(w) => {
 				let r = self.with(w, |wi, mask| {
@@ -699,7 +704,7 @@ impl World {
 						mask,
 						&BlockFees {
 							fees,
-							key_id: None,
+							key_id: cbk.clone(),
 							height,
 						},
 						false,
